@@ -38,6 +38,9 @@ type Program struct {
 	K     int    `json:"keys"`
 	Eager bool   `json:"eager"`
 	Steps []Step `json:"steps"`
+	// ViaRun: goroutines with an odd number call TransientLockMap.Run (lock, callback, unlock in
+	// one call) instead of Lock and Unlock; the callback parks where the machine has them "holding".
+	ViaRun bool `json:"via_run,omitempty"`
 }
 
 func ParseSchedule(s string) []Step {
@@ -70,12 +73,16 @@ type thread struct {
 }
 
 type runner struct {
-	m   *gcsutil.TransientLockMap
-	s   *sched.Sched
-	th  []*thread
-	K   int
-	tmo time.Duration
+	m      *gcsutil.TransientLockMap
+	s      *sched.Sched
+	th     []*thread
+	K      int
+	tmo    time.Duration
+	viaRun bool
 }
+
+// usesRun: thread t takes its locks through Run.
+func (r *runner) usesRun(t int) bool { return r.viaRun && t%2 == 1 }
 
 func newRunner(n, K int) *runner {
 	r := &runner{m: gcsutil.NewTransientLockMap(), s: sched.New(), K: K, tmo: 3 * time.Second}
@@ -125,6 +132,9 @@ func (r *runner) absorb(ev sched.Event) {
 			t.pc = fmt.Sprintf("found:%d", k)
 		case "unlock.released":
 			t.pc = fmt.Sprintf("released:%d", k)
+		case "run.callback":
+			// inside Run's callback: the lock is held
+			t.pc = fmt.Sprintf("holding:%d", k)
 		default:
 			t.pc = "at:" + ev.Point
 		}
@@ -133,7 +143,7 @@ func (r *runner) absorb(ev sched.Event) {
 		switch ev.Val {
 		case "lock:true":
 			t.pc = fmt.Sprintf("holding:%d", k)
-		case "lock:false":
+		case "lock:false", "run:error":
 			t.pc = "failed"
 		case "unlock":
 			t.pc = "idle"
@@ -163,6 +173,19 @@ func (r *runner) startLock(t, k int) {
 	th := r.th[t]
 	th.key = k
 	ctx := th.ctx
+	if r.usesRun(t) {
+		r.s.Start(t, func() string {
+			err := r.m.Run(ctx, keyName(k), func(context.Context) error {
+				r.s.Yield("run.callback", keyName(k))
+				return nil
+			})
+			if err != nil {
+				return "run:error"
+			}
+			return "unlock" // Run has locked, called back and unlocked
+		})
+		return
+	}
 	r.s.Start(t, func() string {
 		if r.m.Lock(ctx, keyName(k)) {
 			return "lock:true"
@@ -194,7 +217,11 @@ func (r *runner) exec(st Step) string {
 			return "cannot-step: goroutine is not parked at a yield point (pc=" + th.pc + ")"
 		}
 	case "enter", "find", "strayUnlock":
-		if th.parked || th.blocked {
+		if st.Act == "find" && r.usesRun(st.T) {
+			if !th.parked {
+				return "cannot-step: goroutine is not inside Run's callback (pc=" + th.pc + ")"
+			}
+		} else if th.parked || th.blocked {
 			return "cannot-step: goroutine is still inside its previous call (pc=" + th.pc + ")"
 		}
 	}
@@ -225,7 +252,13 @@ func (r *runner) exec(st Step) string {
 			return e
 		}
 	case "find":
-		r.startUnlock(st.T, th.key)
+		if r.usesRun(st.T) {
+			// leave the callback: Run goes on to unlock
+			r.s.Resume(st.T)
+			th.parked = false
+		} else {
+			r.startUnlock(st.T, th.key)
+		}
 		if e := r.await(st.T); e != "" {
 			return e
 		}
@@ -277,6 +310,7 @@ func (r *runner) drain() {
 // so, hence never blocks inside the select. Returns the lines and what the implementation showed.
 func Run(p Program) (lines []string, impl []string) {
 	r := newRunner(p.N, p.K)
+	r.viaRun = p.ViaRun
 	defer func() { gcsutil.VerifYield = nil }()
 	defer r.drain()
 	lines = append(lines, fmt.Sprintf("lock init %d %d", p.N, p.K))
@@ -315,7 +349,8 @@ func RunEager(n, K, rounds int, rng *core.Rng) (p Program, lines []string, impl 
 	r := newRunner(n, K)
 	defer func() { gcsutil.VerifYield = nil }()
 	defer r.drain()
-	p = Program{N: n, K: K, Eager: true}
+	p = Program{N: n, K: K, Eager: true, ViaRun: rng.Chance(1, 2)}
+	r.viaRun = p.ViaRun
 	lines = append(lines, fmt.Sprintf("lock init %d %d", n, K))
 	impl = append(impl, "ok")
 	used := make([]int, n)
